@@ -331,6 +331,16 @@ pub fn all_schemas() -> Vec<Schema> {
         .opt("invite", &[("invite", json!(30))])
         .opt("notifications", &[("notifications", json!({"room": 80}))]));
 
+    // the same fields at the values the *other* fields default to (0 <-> 50): a default or a skip
+    // condition copied from a neighbouring field shows up here and nowhere else
+    add(Schema::new(State, "m.room.power_levels", "defaults-crossed", json!({}))
+        .opt("levels", &[("ban", json!(0)), ("kick", json!(0)), ("redact", json!(0)), ("events_default", json!(50)), ("state_default", json!(0))])
+        .opt("users", &[("users", json!({ALICE: 50, BOB: 0})), ("users_default", json!(50))])
+        .opt("invite", &[("invite", json!(50))])
+        .opt("notifications", &[("notifications", json!({"room": 0}))]));
+    // (values equal to a field's *own* default are not generated: ruma omits such a key when it
+    // serializes, the typed value read back is the same, and the property does not forbid that)
+
     for jr in ["public", "invite", "knock", "private"] {
         add(Schema::new(State, "m.room.join_rules", jr, json!({"join_rule": jr})));
     }
